@@ -82,6 +82,22 @@ class P:
                 e = s.expr()
                 s.expect(';')
                 stmts.append(('let', pat, e))
+            elif s.peek()[1] == 'fn' and s.peek(1)[0] == 'id':
+                # a helper function local to the body: `fn name(a: T, b: U) -> R { … }`  ==>  let name := fun a b => …
+                s.next()
+                name = s.next()[1]
+                s.expect('(')
+                params = []
+                while not s.accept(')'):
+                    s.accept('mut')
+                    pn = s.next()[1]
+                    s.expect(':')
+                    params.append((pn, s.type_text((',', ')'))))
+                    s.accept(',')
+                if s.accept('->'):
+                    s.type_()
+                body = s.block()
+                stmts.append(('let', ('pvar', name), ('lambda', params, body)))
             elif s.peek()[1] == 'return':
                 s.next()
                 e = s.expr()
@@ -112,6 +128,20 @@ class P:
                 depth += 1
             if v in ('>', ')', ']'):
                 depth -= 1
+            s.next()
+
+    def type_text(s, stops):
+        depth = 0
+        out = []
+        while True:
+            k, v = s.peek()
+            if v in stops and depth == 0:
+                return ' '.join(out)
+            if v in ('<', '(', '['):
+                depth += 1
+            if v in ('>', ')', ']'):
+                depth -= 1
+            out.append(v)
             s.next()
 
     def pattern(s):
@@ -280,8 +310,26 @@ class P:
         if v == '{':
             s.i -= 1
             return s.block()
-        if v == '|' or v == '||':
-            raise Untranslatable("closure")
+        if v == '||':
+            body = s.expr()
+            return ('lambda', [], body)
+        if v == '|':
+            # closure `|a, b: f64| expr` (non-capturing-by-mutation closures only: the body is an expression or a block)
+            params = []
+            while not s.accept('|'):
+                s.accept('mut')
+                kk, name = s.next()
+                if kk != 'id':
+                    raise Untranslatable("closure parameter pattern")
+                ty = None
+                if s.accept(':'):
+                    ty = s.type_text(('|', ','))
+                params.append((name, ty))
+                s.accept(',')
+            if s.accept('->'):
+                s.type_()
+            body = s.expr()
+            return ('lambda', params, body)
         if k == 'id':
             if v in ('for', 'while', 'loop'):
                 raise Untranslatable(f"loop `{v}`")
@@ -420,6 +468,8 @@ SCALAR = {'min': ('smin', 1), 'max': ('smax', 1), 'recip': ('srecip', 0), 'sqrt'
 IDENT_METHODS = ('into', 'clone', 'to_owned', 'as_coeffs')
 # core::f64::consts (the names on the right are defined in lean/Kurbo/Shapes.lean)
 FLOAT_CONSTS = {'PI': '(Scalar.pi : K)', 'FRAC_PI_2': '(fracPi2 : K)', 'FRAC_PI_4': '(fracPi4 : K)', 'TAU': '(twoPi : K)'}
+LEAN_TYPES = {'f64': 'K', 'Point': 'Point K', 'Vec2': 'Vec2 K', 'Size': 'Size K', 'Rect': 'Rect K', 'Line': 'Line K', 'QuadBez': 'QuadBez K', 'CubicBez': 'CubicBez K',
+              'Affine': 'Affine K', 'bool': 'Bool', 'usize': 'Nat'}
 LEAN_KEYWORDS = {'end', 'at', 'from', 'to', 'fun', 'then', 'do', 'in', 'open', 'by', 'have', 'show', 'with', 'local'}
 
 
@@ -594,6 +644,9 @@ class Emit:
             return f"(match {sc} with {' '.join(arms)})"
         if k == 'block':
             return s.blk(x)
+        if k == 'lambda':
+            ps = ' '.join(f"({lid(n)} : {LEAN_TYPES[t]})" if t in LEAN_TYPES else lid(n) for n, t in x[1]) or '(_ : Unit)'
+            return f"(fun {ps} => {s.e(x[2])})"
         raise Untranslatable(f"emit {k}")
 
     def mpat(s, p):
